@@ -497,6 +497,16 @@ Proof.
   apply (gwriter_safe s Hi Hg Hb). now left.
 Qed.
 
+(* Write and the Flush that follows return the same value *)
+Theorem gwriter_results_agree s : Inv s -> got s = [] -> bad s = false ->
+  let r := gwriter_run sw p le f s in gr_write r = gr_flush r.
+Proof.
+  intros Hi Hg Hb r. destruct (gwriter_run_good s Hi Hg Hb) as (b & _ & _ & Hf & Hw & Hbb & Hx). fold r in Hf, Hw, Hbb, Hx.
+  rewrite Hf. destruct (gr_write r) as [x|] eqn:Ew.
+  - apply Hx. discriminate.
+  - symmetry. now apply Hw.
+Qed.
+
 Theorem gwriter_inv s : Inv s -> got s = [] -> bad s = false ->
   Inv (gr_sink (gwriter_run sw p le f s)).
 Proof.
